@@ -242,12 +242,15 @@ func genCtlRemoveLeader(r *simrt.Rand, c W3Case) json.RawMessage {
 // the log is only known once this very change has been applied: an acknowledged removal
 // must be one that every member applies.
 func genCtlSelfRemovalDuringAnotherChange(r *simrt.Rand, c W3Case) json.RawMessage {
-	c.Nodes = r.Range(3, 4)
+	// (four or five members: the operator only removes a node while the others are a
+	// majority even if the joining node is counted as a member already)
+	c.Nodes = r.Range(4, 5)
 	c.Faults = false
 	c.Cfg.Net = NetCfg{MinLatMs: r.Range(1, 8), JitterMs: r.Range(0, 10)}
 	x := r.Range(2, c.Nodes)
-	c.Ops = append(c.Ops, W3Op{K: "wait", Ms: r.Range(500, 3000)},
-		W3Op{K: "join", Node: c.Nodes + 1, Async: true}, W3Op{K: "wait", Ms: r.Range(0, 120)},
+	// (the operator lets a node's own join handshake settle for 20 s before removing it)
+	c.Ops = append(c.Ops, W3Op{K: "wait", Ms: r.Range(21000, 24000)},
+		W3Op{K: "join", Node: c.Nodes + 1, Async: true}, W3Op{K: "wait", Ms: r.Range(0, 150)},
 		W3Op{K: "removenode", Node: x, A: x},
 		W3Op{K: "wait", Ms: r.Range(2000, 6000)},
 		W3Op{K: "create", Node: 1, DS: 1, P: r.Range(1, 2), R: r.Range(1, 2)})
